@@ -741,6 +741,42 @@ def P8(m, R):
                 ok = True
             R.check(ok, g, dels[0], 'indices are deleted in descending order (%s)' % it,
                     'elements are deleted by index while walking %s in ascending order: every deletion shifts the indices still to come' % it, construct=cons)
+            # walking search results in reverse deletes in descending order only if the search lists them in ascending order of that index
+            if call_name(lp.iter) == 'reversed' and isinstance(inner, ast.Name) and isinstance(lp.target, ast.Tuple):
+                src = [x for x in g.walk() if isinstance(x, ast.Assign) and is_name(x.targets[0], inner.id)]
+                if len(src) == 1 and call_name(src[0].value) == ro.IDFINDN:
+                    pos = next((i_ for i_, t_ in enumerate(tg) if any(isinstance(t, ast.Subscript) and norm(t.slice) == t_ for d_ in dels for t in d_.targets)), None)
+                    h = m.fn('AnsiString.' + ro.IDFINDN)
+                    cons2 = 'search result order: %s' % ro.IDFINDN
+                    outer_idx, elt = None, None
+                    rets = [x for x in h.walk() if isinstance(x, ast.Return) and x.value is not None]
+                    comp = rets[0].value if len(rets) == 1 and isinstance(rets[0].value, ast.ListComp) else None
+                    if comp is None and len(rets) == 1 and isinstance(rets[0].value, ast.Name):
+                        # result = [] ... nested loops ... result.append((i, j))
+                        acc_ = rets[0].value.id
+                        loops_ = [x for x in h.body if isinstance(x, ast.For)]
+                        apps = [x for x in h.walk() if isinstance(x, ast.Call) and call_name(x) == 'append' and is_name(x.func.value, acc_) and x.args]
+                        if len(loops_) == 1 and len(apps) == 1 and isinstance(apps[0].args[0], ast.Tuple):
+                            o_ = loops_[0]
+                            if call_name(o_.iter) == 'enumerate' and isinstance(o_.target, ast.Tuple) and isinstance(o_.target.elts[0], ast.Name):
+                                outer_idx = o_.target.elts[0].id
+                            elt = apps[0].args[0]
+                    elif comp is not None and isinstance(comp.elt, ast.Tuple):
+                        g0 = comp.generators[0]
+                        if call_name(g0.iter) == 'enumerate' and isinstance(g0.target, ast.Tuple) and isinstance(g0.target.elts[0], ast.Name):
+                            outer_idx = g0.target.elts[0].id
+                        elt = comp.elt
+                    sorted_ = len(rets) == 1 and call_name(rets[0].value) == 'sorted' and not rets[0].value.keywords
+                    if sorted_ and pos == 0:
+                        R.ok(h, rets[0], 'the pairs are returned sorted (by their first component)', construct=cons2)
+                    elif pos is None or elt is None or outer_idx is None or pos >= len(elt.elts):
+                        R.undecided(h, h.node, 'order of the pairs returned by %s not recognised' % ro.IDFINDN, construct=cons2)
+                    else:
+                        R.check(is_name(elt.elts[pos], outer_idx), h, elt,
+                                'the pairs come out in ascending order of component %d, the index %s deletes by while walking them in reverse' % (pos, g.qual),
+                                'the pairs come out ordered by %s, not by component %d (%s): %s walks them in reverse and deletes by that component, which needs it '
+                                'ascending -- a deletion shifts the entries still to be deleted (wrong setting re-targeted, or IndexError)' % (
+                                    outer_idx, pos, norm(elt.elts[pos]), g.qual), construct=cons2)
     # (6) recursion guard of the scrubber
     f = m.fn('%s.%s' % (ro.POINT, ro.SCRUB))
     rec = [n for n in f.walk() if isinstance(n, ast.Call) and call_name(n) == ro.SCRUB]
